@@ -7,10 +7,10 @@ import sys
 
 import numpy
 
-ITER_CAP = 3000
+ITER_CAP = 400
 
 
-class DivisionLoop(Exception):
+class DivisionLoop(BaseException):
     def __init__(self, kind, trace):
         super().__init__("poly_divmod does not terminate (%s) after %d candidate "
                          "searches; trace=%s" % (kind, len(trace), trace[-6:]))
@@ -23,6 +23,7 @@ class _Monitor:
         self.depth = 0
         self.seen = None
         self.trace = None
+        self.progress = {}
         self.last_iterations = 0
         self.last_steps = 0
         self.installed = False
@@ -31,6 +32,7 @@ class _Monitor:
         self.depth = 0
         self.seen = None
         self.trace = None
+        self.progress = {}
 
 
 MON = _Monitor()
@@ -73,15 +75,35 @@ def install():
                 tr = MON.trace
                 MON.reset()
                 raise DivisionLoop("cap-without-repeat", tr)
-        return orig_cand(x1, x2, *a, **k)
+        res = orig_cand(x1, x2, *a, **k)
+        if MON.seen is not None and res is not None:
+            # progress measure: for every element the cancelled dividend monomial must strictly
+            # decrease (in the lexicographic order of the candidate search) from step to step;
+            # otherwise the descent argument that makes the loop finite is broken
+            try:
+                idx1, _, include, _ = res
+                key = tuple(int(v) for v in numpy.asarray(x1.exponents)[idx1][::-1])
+                inc = numpy.asarray(include).ravel()
+                for e in numpy.flatnonzero(inc):
+                    prev = MON.progress.get(int(e))
+                    if prev is not None and key >= prev:
+                        tr = MON.trace
+                        MON.reset()
+                        raise DivisionLoop("no-progress", tr)
+                    MON.progress[int(e)] = key
+            except DivisionLoop:
+                raise
+            except Exception:
+                pass
+        return res
 
     def divmod_(dividend, divisor, *a, **k):
         # the 0-d case recurses once on the ravelled operands: monitor the
         # innermost call that owns the loop (shape != ()).
         top = MON.depth == 0
         MON.depth += 1
-        saved = (MON.seen, MON.trace)
-        MON.seen, MON.trace = set(), []
+        saved = (MON.seen, MON.trace, MON.progress)
+        MON.seen, MON.trace, MON.progress = set(), [], {}
         try:
             out = orig_divmod(dividend, divisor, *a, **k)
             n = len(MON.trace)
@@ -90,7 +112,7 @@ def install():
             return out
         finally:
             MON.depth -= 1
-            MON.seen, MON.trace = saved
+            MON.seen, MON.trace, MON.progress = saved
             if top:
                 MON.depth = 0
 
